@@ -105,9 +105,13 @@ func applyJSON(doc document.Document, entry interface{}) (result document.Docume
 		return nil, err
 	}
 
-	docBytes, err = jsonPatches.Apply(docBytes)
-	if err != nil {
-		return nil, err
+	// apply the operations one at a time on the serialized document, so that a value
+	// copied by one operation never shares structure with its source in the next one
+	for i := range jsonPatches {
+		docBytes, err = jsonPatches[i : i+1].Apply(docBytes)
+		if err != nil {
+			return nil, err
+		}
 	}
 
 	return document.FromBytes(docBytes)
